@@ -183,17 +183,16 @@ def _freq_filter(ts, si, b, axis=None, typ="lp"):
     """
     if axis is None:
         axis = ts.ndim - 1
+    axis = axis % ts.ndim
     ns = ts.shape[axis]
     f = fscale(ns, si=si, one_sided=True)
     if typ == "bp":
         filc = _freq_vector(f, b[0:2], typ="hp") * _freq_vector(f, b[2:4], typ="lp")
     else:
         filc = _freq_vector(f, b, typ=typ)
-    if axis < (ts.ndim - 1):
-        filc = filc[:, np.newaxis]
-    return np.real(
-        np.fft.ifft(np.fft.fft(ts, axis=axis) * fexpand(filc, ns, axis=0), axis=axis)
-    )
+    # broadcast the filter along the requested axis, whatever the number of dimensions
+    filc = fexpand(filc, ns, axis=0).reshape([-1 if i == axis else 1 for i in range(ts.ndim)])
+    return np.real(np.fft.ifft(np.fft.fft(ts, axis=axis) * filc, axis=axis))
 
 
 def _freq_vector(f, b, typ="lp"):
